@@ -108,7 +108,13 @@ for _prop, _codecs in sorted(ENC_PROPS.items()):
             _syms = ['%s:%s' % (c.lower(), _fam) for c in _c]
         ENTRIES.append((_prop, _fam, _syms, _w))
 
-EXTRA = []   # hand-written entries (dicts) for findings outside the families
+EXTRA = [
+ {'id': 'KF-C06-closed-mid-read', 'status': 'open', 'property': 'C06',
+  'symptom': ['closed:keeps-reporting-underrun'], 'zone': ['stream-ended-inside-a-multi-octet-read'],
+  'what': "streaming decoder on a stream that was closed inside a multi-octet read (tag+length known, fewer contents octets than announced, or half of an end-of-octets pair): every retry gets the same short read, rewinds and reports underrun again, so EndOfStreamError is never raised; only a cut on a read boundary (the next read returns b'') is recognised as end of stream",
+  'why_open': "the substrate protocol cannot tell 'fewer octets because the rest has not arrived' from 'fewer octets because the stream ended' on a short read; telling them apart needs an extra probing read, which would break callers that grow an io.BytesIO between retries (b'' is not final there) - not a small, safe change",
+  'witness': "('c06', ('octs',), b'abc', 'BER', '0403616263', 3, 'spec', 'seekable-double')"},
+]   # hand-written entries (dicts) for findings outside the families
 
 
 FIXED = [
